@@ -45,7 +45,7 @@ def common_post(c, me, newval):
              ensures=lambda post, exc: [post.f('_output', me) == set_output_result(c.pre('_output', me), r), valid_counter(post, me)])
 
 
-@contract('Counter._setmod', qual=Q + '_setmod', modifies=('_output',), self_cls='Counter')
+@contract('Counter._setmod', qual=Q + '_setmod', modifies=DELIVERY, self_cls='Counter')
 def _setmod(c):
     me, v = c.z('self'), c.v('value')
     c.requires('valid', valid_counter(c.S, me))
@@ -53,7 +53,7 @@ def _setmod(c):
     common_post(c, me, v)
 
 
-@contract('Counter._event_inc', qual=Q + '_event_inc', modifies=('_output',), self_cls='Counter')
+@contract('Counter._event_inc', qual=Q + '_event_inc', modifies=DELIVERY, self_cls='Counter')
 def _event_inc(c):
     me, amount = c.z('self'), c.v('amount')
     c.requires('valid', valid_counter(c.S, me))
@@ -62,7 +62,7 @@ def _event_inc(c):
     common_post(c, me, sp_add(c.pre('_output', me), amount))
 
 
-@contract('Counter._event_dec', qual=Q + '_event_dec', modifies=('_output',), self_cls='Counter')
+@contract('Counter._event_dec', qual=Q + '_event_dec', modifies=DELIVERY, self_cls='Counter')
 def _event_dec(c):
     me, amount = c.z('self'), c.v('amount')
     c.requires('valid', valid_counter(c.S, me))
@@ -71,7 +71,7 @@ def _event_dec(c):
     common_post(c, me, sp_sub(c.pre('_output', me), amount))
 
 
-@contract('Counter._event_put', qual=Q + '_event_put', modifies=('_output',), self_cls='Counter')
+@contract('Counter._event_put', qual=Q + '_event_put', modifies=DELIVERY, self_cls='Counter')
 def _event_put(c):
     me, v = c.z('self'), c.v('value')
     c.requires('valid', valid_counter(c.S, me))
@@ -79,7 +79,7 @@ def _event_put(c):
     common_post(c, me, v)
 
 
-@contract('Counter._event_reset', qual=Q + '_event_reset', modifies=('_output',), self_cls='Counter')
+@contract('Counter._event_reset', qual=Q + '_event_reset', modifies=DELIVERY, self_cls='Counter')
 def _event_reset(c):
     me = c.z('self')
     c.requires('valid', valid_counter(c.S, me))
